@@ -207,11 +207,20 @@ class ResultABC(DiffEqualityMixin, metaclass=abc.ABCMeta):
                 equal_nan=equal_nan,
             )
 
+        def extra_allclose(left_value, right_value):
+            return dict_allclose(
+                left_value,
+                right_value,
+                rtol=rtol,
+                atol=atol,
+                equal_nan=equal_nan,
+            )
+
         members = {
             "method": np.array_equal,
             "alternatives": np.array_equal,
             "values": array_allclose,
-            "extra_": dict_allclose,
+            "extra_": extra_allclose,
         }
 
         the_diff = diff(self, other, **members)
